@@ -698,8 +698,12 @@ YR_API YR_OBJECT* yr_object_array_get_item(YR_OBJECT* object, int flags,
   {
     yr_object_copy(array->prototype_item, &result);
 
-    if (result != NULL)
-      yr_object_array_set_item(object, result, index);
+    if (result != NULL &&
+        yr_object_array_set_item(object, result, index) != ERROR_SUCCESS)
+    {
+      yr_object_destroy(result);
+      result = NULL;
+    }
   }
 
   return result;
